@@ -1326,6 +1326,13 @@ pub fn run(line: &str) -> Option<(String, Vec<String>)> {
             let zero = V::F(0);
             let mut px = Vec::with_capacity(w * h);
             for i in 0..w * h {
+                // block-constant on the 2x1 / 2x2 blocked formats (the wider-bound clause is per block)
+                let (x, y) = (i % w, i / w);
+                let i = match f.cls {
+                    Rgbg | SubYuv(_) => y * ((w + 1) / 2) + x / 2,
+                    Bi(_) => (y / 2) * (w / 2) + x / 2,
+                    _ => i,
+                };
                 let g = |j: usize| V::F(vals[(i * nch + j) % vals.len()]);
                 let v = match fam {
                     Fam::G => [g(0), zero, zero, one],
